@@ -323,6 +323,12 @@ func c18History(name string) int {
 	w := NewWorld(3, 5, 2)
 	var h *History
 	gen := "default"
+	// "<history>@gas=<n>": the same history on a chain whose consensus parameters limit the gas of a block
+	maxGas := int64(0)
+	if i := strings.Index(name, "@gas="); i >= 0 {
+		fmt.Sscanf(name[i+len("@gas="):], "%d", &maxGas)
+		name = name[:i]
+	}
 	if strings.HasPrefix(name, "random:") {
 		var seed int64
 		fmt.Sscanf(name[len("random:"):], "%d", &seed)
@@ -333,7 +339,9 @@ func c18History(name string) int {
 		h = scenarioHistory(name, w)
 		gen = scenarioGenesis(name)
 	}
-	rep := NewReplica(genesisVariant(w, gen), ReplicaOpts{NodeVal: w.Vals[0].Val})
+	gspec := genesisVariant(w, gen)
+	gspec.MaxGas = maxGas
+	rep := NewReplica(gspec, ReplicaOpts{NodeVal: w.Vals[0].Val})
 	rep.InitChain()
 	say("HSTART %s %d\n", name, len(h.Blocks))
 	for i := range h.Blocks {
